@@ -386,6 +386,14 @@ bool scan_hdus(const Bytes &img, std::vector<Hdu> &out, std::string &err) {
 		if ((c = h.find("EXTNAME"))) h.extname = rstrip(c->value);
 		uint64_t bytes_per = (uint64_t)(h.bitpix < 0 ? -h.bitpix : h.bitpix) / 8;
 		if (pcount < 0 || gcount < 0) { err = "PCOUNT/GCOUNT negative"; return false; }
+		// sizes no image in these simulations can have are "past the end" (and must not wrap the products below)
+		if (n > ((uint64_t)1 << 40) || (uint64_t)gcount > ((uint64_t)1 << 20) || (uint64_t)pcount > ((uint64_t)1 << 40)) {
+			h.data_len = (uint64_t)1 << 62;
+			h.next_off = img.size();
+			out.push_back(h);
+			err = "data of HDU " + std::to_string(out.size() - 1) + " runs past the end of the image";
+			return false;
+		}
 		h.data_len = bytes_per * (uint64_t)gcount * ((uint64_t)pcount + n);
 		uint64_t padded = (h.data_len + BLOCK - 1) / BLOCK * BLOCK;
 		if (padded > img.size() || h.data_off + padded > img.size()) {
